@@ -157,4 +157,96 @@ theorem reads_sim {cap mc id role s : Nat} {rq : Request} {e content : Bytes} {b
     · rw [hfed, hspE.1, ← fedBytes_eq]; exact hcons
     · rw [hspE.1, hrs', heq]
 
+/-- **The caller reads while the stream is active and hands over at a record boundary without
+parsing in ignore mode.**  The records behind the preamble are the first input stream's `body`, its
+terminating record `term`, and `more` (for a Filter: the `Data` stream; otherwise trailing noise);
+the history is `A ++ Bq`: `A` without `set_stream`, `Bq` without `parse`. -/
+structure ActiveReads (q : Spec1) (t : Turn) (s : Nat) (content : Bytes) (body : List Rec) (term : Rec)
+    (more : List Rec) (A Bq : List Op) : Prop where
+  split : q.srecs = body ++ term :: more
+  strm : nextInputStream q.p.role none = some s
+  mem : s ∈ inputStreams q.p.role
+  body : Body q.p.id s content body
+  term : IsTerm q.p.id s term
+  ops : t.ops = A ++ Bq
+  noSet : NoSet A
+  quiet : Quiet Bq
+
+theorem wf_id_lt {p : Preamble} {recs : List Rec} (h : WellFormedPreamble p recs) : p.id < 65536 := by
+  induction h with
+  | noise r hn t ih => exact ih
+  | «begin» pad res body5 hb hp hid hrole hl t => exact hid.2
+
+/-- `reads_sim` for a turn of the chain: from what `Front` says about the turn's stream parser. -/
+theorem front_reads {cap mc : Nat} {q : Spec1} {later : List Rec} {t : Turn} {o : Obs} (hq : q.OK)
+    (hlater : ∀ r ∈ later, r.WF) (hf : Front cap mc q later t o)
+    {s : Nat} {content : Bytes} {body : List Rec} {term : Rec} {more : List Rec} {A Bq : List Op}
+    (ha : ActiveReads q t s content body term more A Bq) :
+    (deliveredOps o.sp t.ops <+: content ∧ EveryParse (EndExact content) [] o.sp A) ∧
+    C03S.grownAll o.sp t.ops <+: owedStream q.p.id s mc body ∧
+    NoOverrun q t o ∧
+    (o.spEnd.isRecordBoundary = true → ∃ d rs cr, body = d ++ rs ∧ Body q.p.id s cr rs ∧
+      deliveredOps o.sp t.ops ++ cr = content ∧
+      C03S.grownAll o.sp t.ops = owedStream q.p.id s mc d ∧
+      o.sp.raw ++ C05.fedBytes t.ops = serAll d ++ o.spEnd.raw) := by
+  obtain ⟨hsp, hlen, hend, hl, fut, hpre⟩ := hf
+  have hidlt : q.p.id < 65536 := wf_id_lt hq.1
+  have htl : ∀ r ∈ more ++ later, r.WF := by
+    intro r hr
+    rcases List.mem_append.1 hr with h | h
+    · exact (hq.2 r (by rw [ha.split]; exact List.mem_append_right _ (List.mem_cons_of_mem _ h))).1
+    · exact hlater r h
+  have hw : o.sp.raw ++ C05.fedBytes (A ++ Bq) ++ fut = serAll (body ++ term :: (more ++ later)) := by
+    rw [← ha.ops, hpre, ha.split]
+    simp [List.append_assoc]
+  have hl' : LegalAll (Str.Parser.fromParser cap q.p.request o.sp.raw mc) (A ++ Bq) := by
+    rw [← hsp, ← ha.ops]; exact hl
+  have h := reads_sim (rq := q.p.request) (e := o.sp.raw) (cap := cap) (mc := mc) rfl hidlt rfl ha.strm ha.mem
+    ha.body ha.term htl hlen hw hl' ha.noSet ha.quiet
+  simp only [← hsp, ← ha.ops, ← hend] at h
+  obtain ⟨h1, h2, h3, h4⟩ := h
+  refine ⟨h1, h2, ?_, ?_⟩
+  · unfold NoOverrun
+    have : (serAll body).length ≤ (serAll q.srecs).length := by
+      rw [ha.split, serAll_app, List.length_append]; omega
+    omega
+  · intro hb
+    obtain ⟨d, rs, cr, a, b, c, d', e', -⟩ := h4 hb
+    exact ⟨d, rs, cr, a, b, c, d', e'⟩
+
+/-! ## Computing a turn whose preamble arrives in one chunk (for concrete instances) -/
+
+theorem turn_one {cap mc : Nat} (hcap : 24 ≤ cap) {inp new rest o : Bytes} {r : Request} (hne : new ≠ [])
+    (hlen : (inp ++ new).length ≤ cap)
+    (hrun : run .header (inp ++ new) mc = ⟨rest, .done r, o, none⟩) (ops : List Op) {rp' : Req.Parser}
+    (hrp : (applyOps (Str.Parser.fromParser cap r rest mc) ops).intoRequestParser = some (.ok rp')) :
+    turn (Req.Parser.fromParser cap inp mc) ⟨[new], ops⟩ =
+      some (⟨r, o, Str.Parser.fromParser cap r rest mc, applyOps (Str.Parser.fromParser cap r rest mc) ops⟩, rp') ∧
+    (LegalAll (Str.Parser.fromParser cap r rest mc) ops →
+      TurnLegal (Req.Parser.fromParser cap inp mc) ⟨[new], ops⟩) := by
+  have hl1 : inp.length ≤ cap := by simp only [List.length_append] at hlen; omega
+  have hp := C03.fromParser_inv (input := inp) mc hl1 hcap
+  have hn : new.length ≤ (Req.Parser.fromParser cap inp mc).free := by
+    simp only [Req.Parser.free, Req.Parser.fromParser, List.length_append] at hlen ⊢; omega
+  have hparse : (Req.Parser.fromParser cap inp mc).parse new =
+      ({ cap := cap, input := rest, state := .done r, maxConns := mc },
+        some { done := true, output := o }) := by
+    rw [parse_eq hp hn]
+    simp only [Req.Parser.fromParser, hrun]
+    rfl
+  have hfeed : C03.feedAll (Req.Parser.fromParser cap inp mc) [new] =
+      ({ cap := cap, input := rest, state := .done r, maxConns := mc }, o, []) := by
+    rw [C03.feedAll_cons [] rfl hparse]
+    simp [C03.feedAll]
+  constructor
+  · unfold turn
+    simp only [hfeed, Req.Parser.intoStreamParser, hrp]
+  · intro hl
+    refine ⟨Or.inr ⟨hne, hn, by rw [hparse]; trivial⟩, by rw [hfeed], ?_⟩
+    intro sp hsp
+    rw [hfeed] at hsp
+    simp only [Req.Parser.intoStreamParser] at hsp
+    cases hsp
+    exact hl
+
 end Fcgi.C05C
